@@ -101,6 +101,9 @@ def gen_roundtrip(rng):
         row[0] = rng.choice([0, 1, 2, 3, 65536, 2 ** 31, 2 ** 32 - 1])
         row[1] = [fhex(rng.choice(LOCS) if rng.random() < 0.7 else rng.uniform(-1e6, 1e6))
                   for _ in range(rng.choice([0, 0, 1, 2, 3]))]
+    desc["provenances"] = [[rng.choice(["2024-01-01T00:00:00", "", "t 1", "1999-12-31T23:59:59.999999"]),
+                            rng.choice(['{"software": {"name": "x"}}', "", "free text, with = and spaces", "{}", "é"])]
+                           for _ in range(rng.choice([0, 1, 1, 2]))]
     case = {"desc": desc, "extra_precision": rng.choice([0, 0, 0, 1, 3, 10]), "default_precision": rng.random() < 0.3}
     return case
 
@@ -124,6 +127,8 @@ def build_ts(desc):
                              metadata=bytes.fromhex(m))
     for l, r, node, src, dst, t, m in desc["migrations"]:
         tc.migrations.add_row(l * s, r * s, node, src, dst, t * ts_, metadata=bytes.fromhex(m))
+    for stamp, rec in desc.get("provenances", []):
+        tc.provenances.add_row(record=rec, timestamp=stamp)
     tc.sort()
     return tc.tree_sequence()
 
@@ -185,6 +190,10 @@ def observe_roundtrip(case):
         return obs
     texts = {k: bufs[k].getvalue() for k in TABLES}
     obs["text"] = texts
+    pbuf = io.StringIO()
+    ts.dump_text(provenances=pbuf)
+    obs["provenance_text"] = pbuf.getvalue()
+    obs["provenances"] = [[r.timestamp, r.record] for r in ts.tables.provenances]
     try:
         ts2 = tskit.load_text(**{k: io.StringIO(v) for k, v in texts.items()},
                               sequence_length=ts.sequence_length, strict=True, base64_metadata=True)
@@ -277,6 +286,14 @@ def oracle_roundtrip(case, obs):
         out += compare_tables(obs["orig"], obs["loaded"], "reload")
         if obs["loaded"]["sequence_length"] != obs["orig"]["sequence_length"]:
             out.append(("reload-sequence-length", "%s vs %s" % (obs["loaded"]["sequence_length"], obs["orig"]["sequence_length"])))
+    # provenances: id, timestamp, record, every row closed by a TAB (no reader exists)
+    if "provenance_text" in obs and not out:
+        want = "id\ttimestamp\trecord\n" + "".join("%d\t%s\t%s\t\n" % (i, a, b) for i, (a, b) in enumerate(obs["provenances"]))
+        if obs["provenance_text"] != want:
+            out.append(("dump-provenances", "%r, expected %r" % (obs["provenance_text"], want)))
+    # edge metadata is written by dump_text and has no reader: reloaded edges carry none
+    if "loaded" in obs and not out and any(obs["loaded"]["edge_metadata"]):
+        out.append(("reload-edges-metadata-appeared", repr(obs["loaded"]["edge_metadata"])))
     # no population file: "a minimal set of rows are added" for the populations the nodes refer to
     if "backfill" in obs and not out:
         pops = [r[2] for r in obs["orig"]["nodes"]] + [-1]
@@ -435,6 +452,48 @@ def token_of(col, v):
     return str(v)
 
 
+WS_GAPS = [" ", "\t", "  ", " \t ", "\r", "\x0b", "\x0c", "\x1c", "\x1f ", "\t\t"]
+
+
+def nonempty_value(rng, kind, col):
+    """strict=False cannot represent empty tokens (documented): draw values until the token is a word."""
+    for _ in range(50):
+        v = rnd_value(rng, kind, col)
+        t = token_of(col, v)
+        if t and not any(ch.isspace() for ch in t):
+            return v
+    raise RuntimeError("no word value for %s/%s" % (kind, col))
+
+
+def gen_ws_case(rng, kind=None):
+    """A table for the relaxed mode: words separated by arbitrary whitespace runs."""
+    kind = kind or rng.choice(TABLES)
+    req, opt = SCHEMA[kind]
+    present = [c for c in opt if rng.random() < 0.6]
+    extras = rng.sample([e for e in EXTRA_NAMES if e and not any(ch.isspace() for ch in e)], rng.randrange(0, 3))
+    cols = req + present + extras
+    if rng.random() < 0.8:
+        rng.shuffle(cols)
+    rows = []
+    for _ in range(rng.randrange(0, 5)):
+        rec = {c: nonempty_value(rng, kind, c) for c in req + present}
+        for e in extras:
+            rec["x:" + e] = rng.choice(["0", "junk", "1.5", "unknown", "=", "AA=="])
+        rows.append(rec)
+
+    def line(toks):
+        out = rng.choice(["", "", " ", "\t "])
+        for k, t in enumerate(toks):
+            out += (rng.choice(WS_GAPS) if k else "") + t
+        return out + rng.choice(["", "", " ", "\t", " \r"])
+    lines = [line(cols)]
+    for rec in rows:
+        lines.append(line([rec["x:" + c] if c in extras else token_of(c, rec[c]) for c in cols]))
+    return {"kind": kind, "cols": cols, "present": sorted(present), "strict": False,
+            "rows": [{k: v for k, v in r.items() if not k.startswith("x:")} for r in rows],
+            "text": "\n".join(lines) + "\n"}
+
+
 def gen_parser_case(rng, kind=None, minimal=False):
     kind = kind or rng.choice(TABLES)
     req, opt = SCHEMA[kind]
@@ -491,11 +550,12 @@ def expected_rows(case):
 def observe_parser(case):
     import tskit
     fn = getattr(tskit, "parse_" + case["kind"])
+    strict = case.get("strict", True)
     try:
         if case["kind"] == "edges":
-            tab = fn(io.StringIO(case["text"]), strict=True)
+            tab = fn(io.StringIO(case["text"]), strict=strict)
         else:
-            tab = fn(io.StringIO(case["text"]), strict=True, base64_metadata=True)
+            tab = fn(io.StringIO(case["text"]), strict=strict, base64_metadata=True)
         return {"rows": rows_of_table(case["kind"], tab)}
     except Exception as e:
         return {"err": type(e).__name__, "msg": str(e)[:200]}
@@ -536,6 +596,10 @@ class Parsers(Family):
         n = 1200 if tier == "quick" else 12000
         for _ in range(n):
             yield gen_parser_case(rng)
+        for kind in TABLES:
+            yield gen_ws_case(rng, kind)
+        for _ in range(300 if tier == "quick" else 4000):
+            yield gen_ws_case(rng)
 
     def observe(self, case):
         return observe_parser(case)
@@ -551,7 +615,7 @@ class Parsers(Family):
 
     def describe(self, case, obs):
         req, opt = SCHEMA[case["kind"]]
-        return {"kind": case["kind"], "n_optional_present": len(case["present"]),
+        return {"kind": case["kind"], "strict": case.get("strict", True), "n_optional_present": len(case["present"]),
                 "n_extra": len(case["cols"]) - len(req) - len(case["present"]),
                 "shuffled": case["cols"][:len(req)] != req, "rows": len(case["rows"]),
                 "error": obs.get("err", "none")}
@@ -658,7 +722,7 @@ def cb(x):
 
 def ctext(t):
     """A text (str) as a Coq byte list through a string literal (fast to parse)."""
-    if "\x00" in t or "\r" in t:
+    if any(ord(ch) < 32 and ch not in "\t\n" for ch in t):
         return cb(t)
     return '(bs "%s"%%string)' % t.replace('"', '""')
 
@@ -716,7 +780,7 @@ def rows_term(kind, rows, ftok):
     return "[" + "; ".join(row_term(kind, r, ftok) for r in rows) + "]"
 
 
-def coq_parse_term(kind, text, result, ftok, tname=None):
+def coq_parse_term(kind, text, result, ftok, tname=None, mode=""):
     """model parse of text = result (rows in rows_of_table layout, or {"err": class})."""
     if isinstance(result, dict):
         exp = "(Err %d)" % ERR_CODE.get(result["err"].split(":")[0], 99)
@@ -725,7 +789,7 @@ def coq_parse_term(kind, text, result, ftok, tname=None):
             exp = "(Ok %s)" % rows_term(kind, result, ftok)
         except KeyError:
             return "false"
-    return "res_eqb (list_eqb %s) (c_parse_%s %s) %s" % (EQB[kind], kind, tname or ctext(text), exp)
+    return "res_eqb (list_eqb %s) (c_parse_%s%s %s) %s" % (EQB[kind], kind, mode, tname or ctext(text), exp)
 
 
 def coq_roundtrip(case, obs):
@@ -753,15 +817,91 @@ def coq_roundtrip(case, obs):
         else:
             terms.append("(let t := %s in bytes_eqb (c_dump_%s %s) t && %s)"
                          % (ctext(text), k, rt, coq_parse_term(k, text, parsed, ftok, tname="t")))
+    if "provenance_text" in obs:
+        terms.append("bytes_eqb (c_dump_provenances [%s]) %s"
+                     % ("; ".join("(%s, %s)" % (cb(a), cb(b)) for a, b in obs["provenances"]), ctext(obs["provenance_text"])))
+    if isinstance(obs.get("backfill"), list):
+        terms.append("list_eqb bytes_eqb (backfill_populations %s) [%s]"
+                     % (clist([r[2] for r in obs["orig"]["nodes"]]), "; ".join(cb(bytes.fromhex(m)) for m in obs["backfill"])))
     return "(" + " && ".join(terms) + ")"
 
 
 def coq_parser(case, obs):
     kind = case["kind"]
+    if not case.get("strict", True):
+        # float tokens straight from the logical rows (the text is not TAB separated)
+        toks = {}
+        for rec in case["rows"]:
+            for c, v in rec.items():
+                if c in FLOAT_COLS:
+                    for x in (v if isinstance(v, list) else [v]):
+                        if x != "unknown":
+                            toks.setdefault(x, repr(unhex(x)))
+        res = obs if "err" in obs else obs["rows"]
+        return coq_parse_term(kind, case["text"], res, toks.get, mode="_ws")
     toks = float_tokens_of_text(case["text"])
     if "err" in obs:
         return coq_parse_term(kind, case["text"], obs, toks.get)
     return coq_parse_term(kind, case["text"], obs["rows"], toks.get)
+
+
+# ----------------------------------------------------------------------------------
+# base64_metadata=False: the repr path (pinned behaviour, not a round trip)
+# ----------------------------------------------------------------------------------
+
+
+class Repr(Family):
+    """dump_text(base64_metadata=False) writes repr(bytes); parse_nodes(base64_metadata=False)
+    takes the token itself as metadata.  The suite pins this; the model states it."""
+    name = "repr"
+    workers = 4
+    prelude = "From Coq Require Import String.\nFrom TskVerif Require Import Base.Common C17.Model.\nOpen Scope Z_scope."
+
+    def generate(self, rng, tier):
+        fixed = [b"", b"abc", b"'", b'"', b"'\"", b"it's", b'say "hi"', b"\\", b"\t\n\r", b"\x00\x1f\x7f\x80\xff", bytes(range(256))]
+        for k in range(0, len(fixed), 3):
+            yield {"metadata": [b.hex() for b in fixed[k:k + 3]]}
+        for _ in range(120 if tier == "quick" else 3000):
+            n = rng.randrange(1, 4)
+            yield {"metadata": [bytes(rng.choice([39, 34, 92, 9, 10, 13, 32, 65, 97, 0, 127, 128, 255, rng.randrange(256)])
+                                      for _ in range(rng.randrange(0, 12))).hex() for _ in range(n)]}
+
+    def observe(self, case):
+        import tskit
+        tc = tskit.TableCollection(1)
+        for m in case["metadata"]:
+            tc.nodes.add_row(flags=1, time=0, metadata=bytes.fromhex(m))
+        ts = tc.tree_sequence()
+        buf = io.StringIO()
+        ts.dump_text(nodes=buf, base64_metadata=False)
+        text = buf.getvalue()
+        try:
+            tab = tskit.parse_nodes(io.StringIO(text), strict=True, base64_metadata=False)
+            back = [r.metadata.hex() for r in tab]
+        except Exception as e:
+            back = {"err": type(e).__name__}
+        return {"text": text, "back": back}
+
+    def oracle(self, case, obs):
+        lines = obs["text"].split("\n")
+        want = ["id\tis_sample\ttime\tpopulation\tindividual\tmetadata"] + \
+               ["%d\t1\t%s\t-1\t-1\t%r" % (i, "0.000000", bytes.fromhex(m)) for i, m in enumerate(case["metadata"])] + [""]
+        if lines != want:
+            return [("repr-dump", "%r, expected %r" % (lines, want))]
+        if obs["back"] != [repr(bytes.fromhex(m)).encode().hex() for m in case["metadata"]]:
+            return [("repr-parse", "parse_nodes(base64_metadata=False) gave %r" % (obs["back"],))]
+        return []
+
+    def coq_check(self, case, obs):
+        toks = [ln.split("\t")[5] for ln in obs["text"].split("\n")[1:-1]]
+        if len(toks) != len(case["metadata"]):
+            return "false"
+        return "(" + " && ".join("bytes_eqb (bytes_repr %s) %s" % (cb(bytes.fromhex(m)), cb(t))
+                                 for m, t in zip(case["metadata"], toks)) + ")"
+
+    def describe(self, case, obs):
+        bs_ = b"".join(bytes.fromhex(m) for m in case["metadata"])
+        return {"apostrophe": b"'" in bs_, "double_quote": b'"' in bs_, "control": any(c < 32 for c in bs_)}
 
 
 def coq_b64(case, obs):
@@ -773,10 +913,10 @@ def coq_b64(case, obs):
     return "res_eqb bytes_eqb (b64decode %s) %s" % (cb(case["text"]), exp)
 
 
-FAMILIES = [B64, Parsers, Roundtrip]
+FAMILIES = [B64, Repr, Parsers, Roundtrip]
 NOT_COVERED = [
     "edge metadata: written by dump_text, but parse_edges/load_text have no metadata column reader (reported, not counted)",
-    "strict=False (whitespace splitting), base64_metadata=False (repr of bytes, pinned by the suite), non-utf8 encodings",
+    "non-utf8 encodings; non-ASCII whitespace (U+00A0, U+2000...) with strict=False; base64_metadata=False is modelled as pinned behaviour only (repr family)",
     "states / metadata-free tokens containing TAB, NL or CR; provenances",
     "float <-> decimal conversion is CPython's (checked per case: float(token) == value)",
 ]
